@@ -52,13 +52,18 @@ type Config struct {
 	ExchangeRate string `json:"exchange_rate,omitempty"`
 }
 
-// harnessTokens is the token registry of the emulated chain: two tokens, each its own minimum
-// unit ("stake", which every account of the harness holds, and "point", which nobody holds).
+// harnessTokens is the token registry of the emulated chain: the token "kstake" whose minimum
+// unit is "stake" (scale 3; "stake" is the coin every account of the harness holds, and like a
+// real registry this one finds the token by either name), and "point", its own minimum unit,
+// which nobody holds.
 type harnessTokens struct{}
 
 func (harnessTokens) GetToken(ctx sdk.Context, denom string) (types.TokenI, error) {
-	if denom == "stake" || denom == "point" {
-		return types.MockToken{Symbol: denom, MinUnit: denom, Scale: 0}, nil
+	switch denom {
+	case "stake", "kstake":
+		return types.MockToken{Symbol: "kstake", MinUnit: "stake", Scale: 3}, nil
+	case "point":
+		return types.MockToken{Symbol: "point", MinUnit: "point", Scale: 0}, nil
 	}
 	return nil, fmt.Errorf("token %s does not exist", denom)
 }
